@@ -350,7 +350,13 @@ func (f *fctx) applyContract(callee *ssa.Function, con *Contract, args []Term, p
 	rs := callee.Signature.Results()
 	for i := 0; i < rs.Len(); i++ {
 		s := f.vc.sortOf(rs.At(i).Type())
-		r := f.declare(fmt.Sprintf("%s_r%d", callee.Name(), i), s)
+		var r Term
+		if con.Pure {
+			// a pure function: its result is a function of the arguments (uninterpreted symbol constrained by the ensures)
+			r = f.define(fmt.Sprintf("%s_r%d", callee.Name(), i), f.vc.pureApp(callee, i, args))
+		} else {
+			r = f.declare(fmt.Sprintf("%s_r%d", callee.Name(), i), s)
+		}
 		r.Ty = rs.At(i).Type()
 		isFresh := false
 		for _, fr := range con.Fresh {
